@@ -187,7 +187,7 @@ def run_minesweeper(R, rows, cols, mines):
         l = np.asarray(s_.flat_mine_locations)
         ok = len(l) == mines and len(set(l.tolist())) == mines and l.min() >= 0 and l.max() < rows * cols and bool((np.asarray(s_.board) == -1).all())
         return ok, {"mines": l.tolist()}
-    rp = C.reset_key_search(env, pred, 512)
+    rp = C.reset_replayer(env.reset, ctx, key, lambda out: pred(out[0], out[1]), int(__import__("os").environ.get("VERIF_RESET_KEYS", "512")))
     R.structural("exactly num_mines mine locations", tuple(st.flat_mine_locations.shape) == (mines,), {})
     R.prove("mine locations are in range", A, all_([(x >= 0) & (x < rows * cols) for x in loc]).term(), replay=rp)
     R.prove("mine locations are pairwise distinct", A, all_([loc[i] != loc[j] for i in range(mines) for j in range(i)]).term(), replay=rp)
@@ -214,7 +214,7 @@ def run_flatpack(R, rb, cb):
         ids = sorted(int(x.max()) for x in bl)
         ok = int((bl > 0).sum()) == gr * gc and ids == list(range(1, nb + 1)) and all(set(np.unique(x)) <= {0, int(x.max())} for x in bl)
         return ok, {"blocks": bl.tolist()}
-    rp = C.reset_key_search(env, pred, 256)
+    rp = C.reset_replayer(env.reset, ctx, key, lambda out: pred(out[0], out[1]), 256)
     for k in range(nb):
         cells = list(b[k].reshape(-1))
         ident = b[k, 1, 1]
